@@ -36,6 +36,11 @@ CHECKS = {
             "per-slice operator references at every slice's own global coordinates",
             "Generated configurations x process grids x schedules; decomposition-independence to 1e-12 and agreement "
             "with independent references on the serial world.", "3/C05", MPI_NOTE),
+    "C06": ("schedule-exploring property-based testing on a simulated MPI with a strict collective matcher and deadlock "
+            "detector: stateless DFS enumeration of arrival orders for <= 3 ranks, generated schedules otherwise, "
+            "strict/eager completion, per-rank permuted set iteration, real PYTHONHASHSEED sweep",
+            "Generated configurations x schedules; exhaustive over the schedule tree only where the evidence says so; "
+            "absence of deadlock only for the simulated semantics.", "3/C06", MPI_NOTE),
     "C07": ("property-based testing (Hypothesis): every evaluation entry point vs scipy.interpolate.BSpline on the "
             "knot vector the path uses (reference cross-checked by an own Cox-de Boor recursion)",
             "Generated spaces x coefficient vectors x boundary-focused points; differential against an independent "
@@ -50,6 +55,11 @@ CHECKS = {
             "stated formula + metamorphic relations (constants, linearity, z-shift, exact circular shift)",
             "Generated grids, radii/velocities, displacements up to many turns, rotational transform; differential + "
             "metamorphic oracles.", "3/C10", NUM_NOTE),
+    "C11": ("property-based testing (Hypothesis): VParallelAdvection.step vs independent collocation + scipy evaluation "
+            "with the stated boundary rule; gridStep/gridStepKeepGradient on simulated worlds vs a global reference using "
+            "the parallel gradient at each line's own global position",
+            "Generated v spaces, shifts incl. larger than the domain, three boundary modes; grid level over generated "
+            "process grids.", "3/C11", MPI_NOTE + " " + NUM_NOTE),
     "C12": ("property-based testing (Hypothesis): PoloidalAdvection.step vs an independent vectorised Heun / converged "
             "implicit trapezoid, exact solutions (constant phi, rigid rotation), observed order, counted sweeps",
             "Generated potentials/distributions/time steps; nodes within rounding distance of the radial boundary "
@@ -79,6 +89,13 @@ CHECKS = {
             "vs plain-Python evaluation, and differential driver histories run(N)+restart(M) vs run(N+M)",
             "Generated layouts, process counts at save/load, checkpoint time sets, constants files, save intervals and "
             "restart points.", "3/C18", MPI_NOTE + " pgv.simh5 emulates the mpio driver (h5py here has no MPI support)."),
+    "C19": ("differential fuzzing of every exported kernel: interpreted modules vs the pyccel build of a scratch copy of "
+            "the working tree (separate interpreter), and vs the numba/pythran source copies run as Python behind stubs; "
+            "function sets compared by name",
+            "Generated call batches incl. boundary branches; return values and all array arguments after the call "
+            "compared; the documented build must succeed.", "3/C19",
+            "Trusted base: pyccel 2.0.1 + gfortran/gcc as installed; numba and pythran are absent, so their copies are "
+            "checked as Python sources only (stated in DESIGN 4)."),
     "C20": ("exhaustive enumeration of a finite box + Hypothesis far beyond it, brute-force divisor oracle, "
             "line-event budget for termination",
             "All triples of the box are decided (exhaustive:true for that sub-check); termination as a "
